@@ -46,12 +46,22 @@ def enc(v):
     if isinstance(v, dict): return {'$d': [[k, enc(x)] for k, x in v.items()]}
     return v
 
+RESOLVE = [None]     # how `{'$ref': …}` (a value taken from the session: an alias, another attribute, another object) is materialised
+
 def dec(s):
     if isinstance(s, list): return [dec(x) for x in s]
     if isinstance(s, dict):
+        if '$ref' in s: return RESOLVE[0](s['$ref']) if RESOLVE[0] is not None else '<ref>'
         if '$t' in s: return tuple(dec(x) for x in s['$t'])
         return {k: dec(x) for k, x in s['$d']}
     return s
+
+def refs_of(s):
+    if isinstance(s, list): return [r for x in s for r in refs_of(x)]
+    if isinstance(s, dict):
+        if '$ref' in s: return [s['$ref']]
+        return [r for v in s.values() for r in refs_of(v)]
+    return []
 
 def plain(v):
     """what json would store: wrappers gone, tuples are lists"""
@@ -71,12 +81,16 @@ def tuple_with_container(v):
     if isinstance(v, dict): return any(tuple_with_container(x) for x in v.values())
     return False
 
-def to_T(v, akind=None, flags=True):
-    """value -> encoding of Model.Tracked.T (w = is a Tracked wrapper)"""
+def bound(v, owner):
+    """is `v` a Tracked wrapper that notifies THIS object about THIS attribute"""
+    return bool(owner) and isinstance(v, TrackedValue) and v.obj_ref() is owner[0] and v.attr is owner[1]
+
+def to_T(v, akind=None, flags=False):
+    """value -> encoding of Model.Tracked.T; `flags` = (object, attribute): w = is a Tracked wrapper bound to them"""
     if isinstance(v, dict):
-        return {'k': 'dict', 'w': flags and isinstance(v, TrackedValue), 'items': [[k, to_T(x, None, flags)] for k, x in v.items()]}
+        return {'k': 'dict', 'w': bound(v, flags), 'items': [[k, to_T(x, None, flags)] for k, x in v.items()]}
     if isinstance(v, list):
-        return {'k': akind or 'list', 'w': flags and isinstance(v, TrackedValue), 'items': [['', to_T(x, None, flags)] for x in v]}
+        return {'k': akind or 'list', 'w': bound(v, flags), 'items': [['', to_T(x, None, flags)] for x in v]}
     if isinstance(v, tuple):
         return {'k': 'tup', 'w': False, 'items': [['', to_T(x, None, flags)] for x in v]}
     return v
@@ -152,6 +166,8 @@ class Env(object):
                       'arr': 'iarr', 'varr': 'iarr', 'larr': 'iarr', 'sarr': 'sarr', 'vsarr': 'sarr'}
         self.volatile = {'vdata', 'varr', 'vsarr'}
         self.required = {'data': {}, 'vdata': {}}
+        D2 = {'l': [[1], {'k': []}], 'd': {'a': [2]}}
+        self.others = {'data': D2, 'vdata': D2, 'odata': D2, 'ldata': D2, 'arr': [7, 8], 'varr': [7, 8], 'larr': [7, 8], 'sarr': ['p', 'q'], 'vsarr': ['p', 'q']}
         self.ntag = 0
     def updates(self):
         return [s for s in self.statements if s.lstrip().upper().startswith('UPDATE')]
@@ -230,6 +246,16 @@ def do_call(t, c):
             r = operator.ior(t, src)
             assert r is t
         else: raise ValueError(n)
+
+def array_validate_mirror(v, akind):
+    """ArrayConverter.validate on a value that is not already this attribute's wrapper: (list, None) or (None, 'TypeError')"""
+    items = [v] if isinstance(v, str) or not hasattr(v, '__len__') else list(v)
+    for i, x in enumerate(items):
+        ok = isinstance(x, int) if akind == 'iarr' else isinstance(x, str)
+        if not ok:
+            if hasattr(x, '__index__'): items[i] = x.__index__()
+            else: return None, 'TypeError'
+    return items, None
 
 def do_read(t, r):
     """non-mutating use of the value; the result is canonicalised and compared between real and mirror"""
@@ -322,6 +348,7 @@ class Result(object):
         self.model_valid = True # False once something outside the model happened (partial failure, extended slice, ...)
         self.partial = False
         self.shared = 0
+        self.foreign = []       # another object / attribute was affected
         self.stopped = False    # ended early: an exception left different partial effects in Pony and in plain Python
         self.init_T = None
         self.executed = 0
@@ -332,7 +359,7 @@ def execute(env, attr, init, prog, created=False, source=None):
     it runs (the generator sees the current state) and appended to `prog`."""
     E = env.E; res = Result(); akind = env.akind[attr]
     res.created = created; res.volatile = attr in env.volatile
-    other = {k: v for k, v in env.required.items() if k != attr}
+    other = {k: copy.deepcopy(v) for k, v in env.others.items() if k != attr}
     ds = db_session()
     st = {'e': None, 'vars': {}, 'mvars': {}}
     def rootval(): return getattr(st['e'], attr)
@@ -344,7 +371,7 @@ def execute(env, attr, init, prog, created=False, source=None):
         row = con.execute('select %s from "E" where id = ?' % attr, (st['pk'],)).fetchone()
         return None if row[0] is None else json.loads(row[0])
     def snap(err, after_flush=False):
-        s = {'err': err, 'dirty': dirty(), 'doc': to_T(rootval(), akind), 'status': st['e']._status_}
+        s = {'err': err, 'dirty': dirty(), 'doc': to_T(rootval(), akind, (st['e'], getattr(E, attr))), 'status': st['e']._status_}
         if after_flush: s['db'] = to_T(raw_column(), akind, False)
         return s
     def check_persisted(at, where):
@@ -355,8 +382,11 @@ def execute(env, attr, init, prog, created=False, source=None):
         a = canon(rootval()); b = canon(st['mirror'])
         if a != b: res.mirror_diffs.append({'at': at, 'what': 'value', 'real': a, 'mirror': b})
     # ---- set up
+    with db_session:
+        e2 = E(**copy.deepcopy(env.others)); commit(); st['pk2'] = e2.id
     if created:
         ds.__enter__()
+        st['e2'] = E[st['pk2']]
         st['e'] = E(**dict(other, **{attr: dec(init)}))
         st['mirror'] = dec(init); st['pk'] = None
         res.init_T = to_T(dec(init), akind, False)
@@ -365,9 +395,26 @@ def execute(env, attr, init, prog, created=False, source=None):
             e0 = E(**dict(other, **{attr: dec(init)}))
             commit(); st['pk'] = e0.id
         ds.__enter__()
-        st['e'] = E[st['pk']]
+        st['e'] = E[st['pk']]; st['e2'] = E[st['pk2']]
         st['mirror'] = copy.deepcopy(plain(rootval()))
         res.init_T = to_T(st['mirror'], akind, False)
+    def real_ref(ref):
+        if ref[0] == 'var': return st['vars'][ref[1]]
+        x = getattr(st['e'] if ref[0] == 'attr' else st['e2'], ref[1])
+        for s_ in ref[2]: x = x[s_]
+        return x
+    def resolve_refs(op):
+        """the values handed over by reference, as they are right before the operation; None if one cannot be resolved"""
+        out = {}
+        for ref in refs_of(op):
+            try: out[json.dumps(ref)] = real_ref(ref)
+            except (KeyError, IndexError, TypeError): return None
+        return out
+    def others_clean(at):
+        """the other attributes of the object and the other object are not touched by what is done to this attribute"""
+        e2 = st['e2']
+        if e2._status_ != 'loaded' or e2._wbits_:
+            res.foreign.append({'at': at, 'what': 'another object was marked modified', 'observed': [e2._status_, e2._wbits_]})
     try:
         idx = -1
         while True:
@@ -407,12 +454,19 @@ def execute(env, attr, init, prog, created=False, source=None):
                 if len(paths) >= PATH_LIMIT: res.model_valid = False      # shared at too many places after repeated *=
             if o == 'call':
                 c = op
+                reals = resolve_refs(c)
+                if reals is None: continue
+                plains = {k: copy.deepcopy(plain(v)) for k, v in reals.items()}
+                as_plain = lambda ref: copy.deepcopy(plains[json.dumps(ref)])      # Pony copies what is handed in (make): so does the mirror
+                RESOLVE[0] = as_plain
                 mm = model_mut(c, y)
                 before_m = canon(y); old_items = list(y) if isinstance(y, list) else None
                 rerr = merr = None
+                RESOLVE[0] = lambda ref: reals[json.dumps(ref)]
                 try: do_call(x, c)
                 except Exception as ex: rerr = type(ex).__name__
                 array_reject = rerr == 'TypeError' and akind is not None
+                RESOLVE[0] = as_plain
                 if not array_reject:
                     try: do_call(y, c)
                     except Exception as ex: merr = type(ex).__name__
@@ -442,6 +496,8 @@ def execute(env, attr, init, prog, created=False, source=None):
                         res.snaps.append((len(res.model_ops) - 1, snap(rerr), idx))
                     elif isinstance(x, TrackedValue) and notifying(x, c) and (rerr is None or (FACTS.get('notifyOnError') and not array_reject)):
                         res.model_ops.append({'t': 'touch'}); res.snaps.append((len(res.model_ops) - 1, snap(None), idx))
+                RESOLVE[0] = None
+                others_clean(idx)
                 if res.stopped: break
                 continue
             if o == 'read':
@@ -470,10 +526,37 @@ def execute(env, attr, init, prog, created=False, source=None):
                     res.model_ops.append({'t': 'other'}); res.snaps.append((len(res.model_ops) - 1, snap(None), idx))
                 continue
             if o == 'assign':
-                setattr(st['e'], attr, dec(op['v'])); st['mirror'] = dec(op['v'])
-                check_mirror(idx)
-                if res.model_valid:
-                    res.model_ops.append({'t': 'assign', 'v': to_T(dec(op['v']), akind, False)}); res.snaps.append((len(res.model_ops) - 1, snap(None), idx))
+                reals = resolve_refs(op)
+                if reals is None: continue
+                plains = {k: copy.deepcopy(plain(v)) for k, v in reals.items()}
+                v = op['v']
+                same = None
+                if isinstance(v, dict) and '$ref' in v and bound(reals[json.dumps(v['$ref'])], (st['e'], getattr(E, attr))):
+                    # validate() hands a wrapper bound to this object and attribute back as it is: the alias becomes the value
+                    ref = v['$ref']
+                    if ref[0] == 'var': same = st['mvars'][ref[1]]
+                    else:
+                        same = st['mirror']
+                        for s_ in ref[2]: same = same[s_]
+                RESOLVE[0] = lambda ref: reals[json.dumps(ref)]
+                rerr = None
+                try: setattr(st['e'], attr, dec(v))
+                except Exception as ex: rerr = type(ex).__name__
+                RESOLVE[0] = lambda ref: copy.deepcopy(plains[json.dumps(ref)])
+                newval = same if same is not None else dec(v)
+                if akind is not None and same is None:
+                    newval, merr = array_validate_mirror(newval, akind)        # ArrayConverter.validate
+                    if merr != rerr: res.mirror_diffs.append({'at': idx, 'what': 'exception of the assignment', 'real': rerr, 'mirror': merr})
+                elif rerr is not None:
+                    res.mirror_diffs.append({'at': idx, 'what': 'exception of the assignment', 'real': rerr, 'mirror': None})
+                RESOLVE[0] = None
+                if rerr is None:
+                    st['mirror'] = newval
+                    check_mirror(idx)
+                    if res.model_valid:
+                        res.model_ops.append({'t': 'assign', 'v': to_T(newval, akind, False)})
+                        res.snaps.append((len(res.model_ops) - 1, snap(None), idx))
+                others_clean(idx)
                 continue
             if o in ('flush', 'commit'):
                 nupd = len(env.updates()); was_dirty = dirty() or st['e']._status_ in ('modified', 'created')
@@ -529,6 +612,7 @@ def execute(env, attr, init, prog, created=False, source=None):
                 continue
             raise ValueError(o)
         # end of program = end of session
+        others_clean(len(prog))
         quiet_before = any(p_.get('quiet') for p_ in prog)
         insess = canon(st['mirror']) if quiet_before else canon(rootval())
         try:
@@ -579,7 +663,11 @@ class Gen(object):
     """online generator: looks at the mirror to choose valid targets; the program it emits is self-contained"""
     def __init__(self, rng, attr, danger):
         self.rng = rng; self.attr = attr; self.danger = danger; self.nvar = 0
+    refs = ()
     def value(self, depth=2):
+        if self.refs and depth >= 2 and self.rng.random() < 0.10:
+            r = {'$ref': self.rng.choice(self.refs)}            # a value taken from the session: alias / other attribute / other object
+            return r if self.rng.random() < 0.7 else [r, self.rng.choice(ATOMS)]
         return enc(rand_json(self.rng, depth, 0.25 if self.rng.random() < self.danger else 0.0))
     def kind(self, choices):
         rng = self.rng
@@ -679,11 +767,26 @@ def random_program(env, rng, attr, nops, danger, created=False):
             r = rng.random()
             conts = containers(root)
             if r < 0.10 or not conts:
-                o = rng.choice(['flush', 'flush', 'commit', 'reload', 'assign', 'readattr', 'other', 'other'])
-                if o == 'assign': return [{'op': 'assign', 'v': enc(rand_doc(rng)) if akind is None else init}]
+                o = rng.choice(['flush', 'flush', 'commit', 'reload', 'assign', 'assign', 'readattr', 'other', 'other'])
+                if o == 'assign':
+                    live_ = sorted(v for v in mvars if isinstance(mvars[v], (list, dict)) and v not in stale)
+                    if akind is None:
+                        cands = [['var', v] for v in live_] + [['attr', a, p_] for a in ('data', 'vdata', 'ldata') if a != attr for p_ in ([], ['l'], ['d'])] + \
+                                [['obj2', a, p_] for a in ('data', 'vdata') for p_ in ([], ['l', 1])]
+                        v = {'$ref': rng.choice(cands)} if rng.random() < 0.45 else enc(rand_doc(rng))
+                    else:
+                        same_kind = [a for a, k in env.akind.items() if k == akind]
+                        good = (lambda: rng.choice([0, 1, 5, True])) if akind == 'iarr' else (lambda: rng.choice(['', 'a', 'zz']))
+                        v = rng.choice([init, {'$t': [good(), good()]}, good(), [good(), None], None if False else [good()],
+                                        {'$ref': ['attr', rng.choice(same_kind), []]}, {'$ref': ['obj2', rng.choice(same_kind), []]},
+                                        {'$ref': ['var', live_[0]]} if live_ else [good()]])
+                    return [{'op': 'assign', 'v': v}]
                 return [{'op': o}]
             ops = []
             live = sorted(v for v in mvars if isinstance(mvars[v], (list, dict)) and v not in stale)
+            if akind is None:
+                g.refs = [['var', v] for v in live] + [['attr', a, p_] for a in ('data', 'vdata', 'odata') if a != attr for p_ in ([], ['l'], ['l', 1], ['d', 'a'])] + \
+                         [['obj2', 'data', p_] for p_ in ([], ['l'], ['l', 1])]
             if live and rng.random() < 0.4:
                 var = rng.choice(live); y = mvars[var]
             else:
@@ -751,6 +854,10 @@ def report_result(ctx, env, attr, init, prog, res, facts, created=False, label='
                       {'attr': attr, 'init': init, 'program': small, 'created_in_same_session': created, 'found_by': label},
                       observed=loss['observed'], expected=loss['expected'], key='C28:' + key)
         ctx.count('loss:' + key)
+    for fd in res.foreign[:1]:
+        ctx.violation('a change made to the value of one object marked ANOTHER object modified (the wrapper notifies the wrong object)',
+                      {'attr': attr, 'init': init, 'program': prog[:fd['at'] + 1], 'created_in_same_session': created}, observed=fd['observed'], expected=['loaded', 0],
+                      key='C28:wrapper-bound-to-another-object')
     for rd in res.read_dirty[:1]:
         ctx.violation('a read of a Json/array value marked the object modified (or caused an UPDATE)',
                       {'attr': attr, 'init': init, 'program': prog[:rd['at'] + 1]}, observed=rd['after'], expected=rd['before'],
@@ -920,6 +1027,33 @@ def witness_programs():
                 {'op': 'call', 't': 'dmut', 'n': 'setitem', 'var': 'r', 'key': 'z', 'v': 1}], False))
     out.append(('assign(array) then change', 'arr', [1, 2], [{'op': 'assign', 'v': [5, 6]}, {'op': 'flush'}, {'op': 'take', 'var': 'r', 'path': []},
                 {'op': 'call', 't': 'lmut', 'n': 'append', 'var': 'r', 'v': 7}], False))
+    # values taken from the session: an alias, a value of another attribute, a value of ANOTHER OBJECT (Pony copies them into
+    # wrappers bound to this object and attribute; `validate` keeps only a wrapper that is already bound to them)
+    ap1 = {'op': 'call', 't': 'lmut', 'n': 'append', 'var': 'y', 'v': 1}
+    out.append(('assign(value of another object)', 'data', DOC, [{'op': 'assign', 'v': {'$ref': ['obj2', 'data', []]}}, {'op': 'flush'},
+                {'op': 'take', 'var': 'y', 'path': ['l', 1, 'k']}, ap1], False))
+    out.append(('assign(part of the value of another object)', 'data', DOC, [{'op': 'assign', 'v': {'$ref': ['obj2', 'vdata', ['l']]}}, {'op': 'commit'},
+                {'op': 'take', 'var': 'y', 'path': [0]}, ap1], False))
+    out.append(('append(value of another object)', 'data', DOC, [{'op': 'take', 'var': 'x', 'path': ['l']},
+                {'op': 'call', 't': 'lmut', 'n': 'append', 'var': 'x', 'v': {'$ref': ['obj2', 'data', ['l', 1]]}}, {'op': 'flush'}, {'op': 'take', 'var': 'y', 'path': ['l', 3, 'k']}, ap1], False))
+    out.append(('update(values of another attribute and object)', 'data', DOC, [{'op': 'take', 'var': 'x', 'path': ['d']},
+                {'op': 'call', 't': 'dmut', 'n': 'update', 'var': 'x', 'k': 'dict', 'ps': [['q', {'$ref': ['attr', 'odata', ['l']]}]], 'kw': [['r', {'$ref': ['obj2', 'data', ['d']]}]]},
+                {'op': 'flush'}, {'op': 'take', 'var': 'y', 'path': ['d', 'q', 0]}, ap1, {'op': 'flush'}, {'op': 'take', 'var': 'z', 'path': ['d', 'r', 'a']},
+                {'op': 'call', 't': 'lmut', 'n': 'append', 'var': 'z', 'v': 5}], False))
+    out.append(('assign(value of another attribute)', 'data', DOC, [{'op': 'assign', 'v': {'$ref': ['attr', 'ldata', []]}}, {'op': 'flush'},
+                {'op': 'take', 'var': 'y', 'path': ['l', 1, 'k']}, ap1], False))
+    out.append(('extend([alias])', 'data', DOC, [{'op': 'take', 'var': 'x', 'path': ['l']}, {'op': 'take', 'var': 'a', 'path': ['l', 0]},
+                {'op': 'call', 't': 'lmut', 'n': 'extend', 'var': 'x', 'k': 'list', 'vs': [{'$ref': ['var', 'a']}]}, {'op': 'flush'},
+                {'op': 'take', 'var': 'y', 'path': ['l', 3, 'k']}, ap1, {'op': 'flush'}, {'op': 'take', 'var': 'y2', 'path': ['l', 0, 'k']},
+                {'op': 'call', 't': 'lmut', 'n': 'append', 'var': 'y2', 'v': 2}], False))
+    out.append(('assign(alias)', 'data', DOC, [{'op': 'take', 'var': 'a', 'path': ['l']}, {'op': 'assign', 'v': {'$ref': ['var', 'a']}}, {'op': 'flush'},
+                {'op': 'call', 't': 'lmut', 'n': 'append', 'var': 'a', 'v': 9}], False))
+    for aattr, vv in (('arr', 3), ('sarr', 'z')):
+        out.append(('array: assign(value of another object)', aattr, [1, 2] if aattr == 'arr' else ['a'], [{'op': 'assign', 'v': {'$ref': ['obj2', aattr, []]}}, {'op': 'flush'},
+                    {'op': 'take', 'var': 'y', 'path': []}, {'op': 'call', 't': 'lmut', 'n': 'append', 'var': 'y', 'v': vv}], False))
+        out.append(('array: assign(tuple / scalar / bad item)', aattr, [1, 2] if aattr == 'arr' else ['a'], [{'op': 'assign', 'v': {'$t': [vv, vv]}}, {'op': 'flush'},
+                    {'op': 'take', 'var': 'y', 'path': []}, {'op': 'call', 't': 'lmut', 'n': 'append', 'var': 'y', 'v': vv}, {'op': 'assign', 'v': vv}, {'op': 'assign', 'v': [vv, None]},
+                    {'op': 'take', 'var': 'y2', 'path': []}, {'op': 'call', 't': 'lmut', 'n': 'append', 'var': 'y2', 'v': vv}], False))
     # a mutator that raises after it has already changed the container; the caller catches the exception; the value in a new
     # session must be the in-memory value
     HET = {'$d': [['items', [1, 3, 2, None]], ['d', {'$d': []}]]}
@@ -1078,6 +1212,8 @@ def run(ctx):
             if o['op'] == 'call': ctx.count('op:%s.%s%s' % (o['t'], o['n'], (':' + str(o['k'])) if 'k' in o else ''))
             elif o['op'] == 'read': ctx.count('read:' + o['r'])
             elif o['op'] != 'take': ctx.count('op:' + o['op'])
+        for o in prog:
+            for r_ in refs_of(o): ctx.count('ref:%s:%s' % (o['op'], r_[0]))
         if res.shared: ctx.count('program:call on an object that occurs at several paths (shared after *=)')
         if res.partial: ctx.count('program:partial-failure (outside the model)')
         if res.stopped: ctx.count('program:stopped after an exception with a different partial effect than plain Python')
